@@ -23,6 +23,10 @@ def run(res, tier, seed):
     if out:
         dis, lines, model = out
         for d in dis:
+            if d.get('kind') == 'value' and d['query'].startswith('PROP'):
+                res.violation('lu-solve-scaling', {'what': d['query'] + ' => ' + d['impl'], 'seed': seed,
+                                                   'replay_cmd': 'VERIF_SEED=%d VERIF_TIER=%s build/harness/h_linalg lu' % (seed, tier)})
+                break
             if d.get('kind') == 'value':
                 res.violation('lu-solve-residual', {
                     'what': 'SparseLUSolver::solveInPlace result violates A x = b (exact residual) or differs from '
